@@ -120,6 +120,7 @@ PURE_EXTERNAL = {
     "re.compile": re.compile, "re.sub": re.sub, "re.findall": re.findall, "re.search": re.search, "re.match": re.match, "re.fullmatch": re.fullmatch,
     "copy.copy": lambda x: x.copy() if hasattr(x, "copy") else x,
     "unicodedata.category": unicodedata.category,
+    "json.loads": lambda s_, *a, **k: __import__("json").loads(s_),
     "fnmatch.filter": lambda names, pat: __import__("fnmatch").filter(list(names), pat),
     "fnmatch.fnmatch": lambda n, pat: __import__("fnmatch").fnmatch(n, pat),
     "fnmatch.fnmatchcase": lambda n, pat: __import__("fnmatch").fnmatchcase(n, pat),
@@ -243,7 +244,7 @@ class PureInterp:
             self.assign(st.target, self.binop(st.op, cur, v), env, module, depth)
         elif isinstance(st, ast.If):
             self.block(st.body if self.truth(self.eval(st.test, env, module, depth)) else st.orelse, env, module, depth)
-        elif isinstance(st, ast.For):
+        elif isinstance(st, (ast.For, ast.AsyncFor)):
             it = self.eval(st.iter, env, module, depth)
             broke = False
             for item in list(it):
@@ -276,7 +277,21 @@ class PureInterp:
                         raise Raised("KeyError", repr(k))
                 elif isinstance(t, ast.Name):
                     env.pop(t.id, None)
-        elif isinstance(st, ast.With):
+        elif isinstance(st, ast.While):
+            n_iter = 0
+            while self.truth(self.eval(st.test, env, module, depth)):
+                n_iter += 1
+                if n_iter > 10000:
+                    raise Unsupported("loop bound")
+                try:
+                    self.block(st.body, env, module, depth)
+                except _Break:
+                    break
+                except _Continue:
+                    continue
+            else:
+                self.block(st.orelse, env, module, depth)
+        elif isinstance(st, (ast.With, ast.AsyncWith)):
             # only event-recording hooks may stand for a context manager
             opened = []
             for item in st.items:
@@ -322,7 +337,14 @@ class PureInterp:
             if fi is not None:
                 env[st.name] = ("closure", fi, env)
             return
-        elif isinstance(st, (ast.Import, ast.ImportFrom, ast.Assert, ast.Global, ast.Nonlocal)):
+        elif isinstance(st, ast.Assert):
+            try:
+                ok = self.truth(self.eval(st.test, env, module, depth))
+            except Unsupported:
+                return
+            if not ok:
+                raise Raised("AssertionError", ast.unparse(st.test)[:60])
+        elif isinstance(st, (ast.Import, ast.ImportFrom, ast.Global, ast.Nonlocal)):
             return
         else:
             raise Unsupported(f"statement {type(st).__name__}")
@@ -737,6 +759,10 @@ class PureInterp:
                 setattr(o, name, kwargs[arg])
             elif default is not Ellipsis:
                 setattr(o, name, default)
+
+    def e_Await(self, n, env, module, depth):
+        # sequential model: awaiting a coroutine runs it to completion here (scheduling points are the path explorer's business)
+        return self.eval(n.value, env, module, depth)
 
     def e_Lambda(self, n, env, module, depth):
         return ("lambda", n, module)
